@@ -1,5 +1,6 @@
 import RbV.Thm.C09
 import RbV.Thm.GenSrcMyersNew
+import RbV.Thm.GenSrcMyersNewLong
 /-!
 # Soft module (tools/gen_tables.py: `soft_modules`, failure = note, never a broken obligation): the constructors of the Myers matchers
 
@@ -81,5 +82,36 @@ set_option maxRecDepth 40000 in
 example : (RbV.Gen.SrcMyersLongCtor.new (w := 8) (pattern := [1, 2, 1, 1, 2, 1, 1, 2, 1, 3]) >>= fun r =>
     pure (r.1.map (fun b => (b.1.take 4, b.2)), r.2.1)) =
     RbV.Rs.Res.ok ([([0, 0b01101101, 0b10010010, 0], 128), ([0, 0b01, 0, 0b10], 2)], 10) := by decide
+
+/-- **`long::Myers::new_ambig`, as written, builds one `Peq` per block**: `pattern.chunks(w)` are the model's blocks
+`blocksOf w p`; per block the table `tabWord` of the block's symbols (all-ones for text wildcards) and `bound = 1 << (len − 1)`;
+`m`; an empty states store.  No panic for a pattern of `1 ..= usize::MAX / 2` bytes. -/
+theorem myers_long_new_source_eq_model (w : Nat) (p : List Nat) (amb : Option (List (Nat × List Nat)))
+    (wild : Option (List Nat)) (hw : 1 ≤ w) (hw64 : w < 2 ^ 64) (hm1 : 1 ≤ p.length)
+    (hm : p.length ≤ 18446744073709551615 / 2) (hb : ∀ c ∈ p, c < 256) (hamb : RbV.Thm.GenSrcMyersNew.AmbOk amb)
+    (hwild : ∀ c ∈ wild.getD [], c < 256) :
+    RbV.Gen.SrcMyersLongCtor.newAmbig (w := w) (pattern := p) (opt_ambigs := amb) (opt_wildcards := wild) =
+      RbV.Rs.Res.ok ((RbV.Model.MyersLong.blocksOf w p).map (RbV.Thm.GenSrcMyersNewLong.peqOf w amb wild), p.length, []) :=
+  RbV.Thm.GenSrcMyersNewLong.long_newAmbig_eq_model w p amb wild hw hw64 hm1 hm hb hamb hwild
+
+/-- … without text wildcards these are the model's tables `peqL` -/
+theorem myers_long_new_source_tables_are_peqL (w : Nat) (amb : Option (List (Nat × List Nat))) (blks : List (List Nat)) :
+    blks.map (RbV.Thm.GenSrcMyersNewLong.peqOf w amb none) =
+      RbV.Thm.GenSrcMyersLongStep.peqL w (RbV.Thm.GenSrcMyersNew.eqvA amb) blks :=
+  RbV.Thm.GenSrcMyersNewLong.peqOf_no_wild w amb blks
+
+/-- **block-based matcher, from the translated constructor to the specification** (no text wildcards: `long::Myers::new`,
+`build_long` with `ambig` only): translated `new_ambig` → translated `Matches::new` → translated `next` until `None` = the
+Sellers hits of the ambiguity equivalence; no model-side table is named -/
+theorem myers_long_find_all_end_source_exact_from_new (w : Nat) (p t : List Nat) (k : Nat)
+    (amb : Option (List (Nat × List Nat))) (hw : 2 ≤ w) (hw62 : w < 2 ^ 62) (hm1 : 1 ≤ p.length)
+    (h63 : p.length + w + 2 < 2 ^ 63) (hb : ∀ c ∈ p, c < 256) (hamb : RbV.Thm.GenSrcMyersNew.AmbOk amb)
+    (hbt : ∀ c ∈ t, c < 256) (h64 : t.length < 2 ^ 64) :
+    (do let (peq, m, _) ← RbV.Gen.SrcMyersLongCtor.newAmbig (w := w) (pattern := p) (opt_ambigs := amb) (opt_wildcards := none)
+        RbV.Thm.GenSrcMyersLongMatches.findAllSrc w peq m t k) =
+      RbV.Rs.Res.ok (hits (unitW (RbV.Thm.GenSrcMyersNew.eqvA amb)) p t k) := by
+  rw [RbV.Thm.GenSrcMyersNewLong.long_newAmbig_eq_model w p amb none (by omega) (by omega) hm1 (by omega) hb hamb (by simp)]
+  simp only [RbV.Rs.Res.ok_bind, RbV.Thm.GenSrcMyersNewLong.peqOf_no_wild]
+  exact myers_long_find_all_end_source_exact_every_width w (RbV.Thm.GenSrcMyersNew.eqvA amb) p t k hw hw62 hm1 h63 hbt h64
 
 end RbV.Thm.C09soft
